@@ -1,8 +1,846 @@
 import PyresampleModel.Model.C15
 
 /-
-  C15 — property theorems (stub: none yet).
+  C15 — property theorems: for every schedule (arbitrary list of worker ids), every n, worker
+  count, chunk and schedule kind.
 -/
 namespace PyresampleModel.C15
+
+/-- consecutive non-empty half-open intervals from `a` to `b` -/
+def Chain : Nat → Nat → List (Nat × Nat) → Prop
+  | a, b, [] => a = b
+  | a, b, (s, e) :: rest => s = a ∧ a < e ∧ Chain e b rest
+
+theorem aux_chain_append : ∀ (l : List (Nat × Nat)) (a b e : Nat), Chain a b l → b < e →
+    Chain a e (l ++ [(b, e)]) := by
+  intro l
+  induction l with
+  | nil => intro a b e h hlt; simp [Chain] at *; subst h; exact ⟨rfl, hlt⟩
+  | cons p ps ih =>
+    intro a b e h hlt
+    obtain ⟨s, t⟩ := p
+    simp only [Chain, List.cons_append] at *
+    exact ⟨h.1, h.2.1, ih _ _ _ h.2.2 hlt⟩
+
+theorem aux_chain_le : ∀ (l : List (Nat × Nat)) (a b : Nat), Chain a b l → a ≤ b := by
+  intro l
+  induction l with
+  | nil => intro a b h; simp [Chain] at h; omega
+  | cons p ps ih =>
+    intro a b h
+    obtain ⟨s, t⟩ := p
+    simp only [Chain] at h
+    have := ih _ _ h.2.2
+    omega
+
+theorem aux_chain_mem : ∀ (l : List (Nat × Nat)) (a b : Nat), Chain a b l →
+    ∀ p ∈ l, a ≤ p.1 ∧ p.1 < p.2 ∧ p.2 ≤ b := by
+  intro l
+  induction l with
+  | nil => intro a b _ p hp; simp at hp
+  | cons q qs ih =>
+    intro a b h p hp
+    obtain ⟨s, t⟩ := q
+    simp only [Chain] at h
+    rcases List.mem_cons.mp hp with rfl | hp
+    · have := aux_chain_le _ _ _ h.2.2
+      simp; omega
+    · have := ih _ _ h.2.2 p hp
+      omega
+
+theorem aux_chain_pairwise : ∀ (l : List (Nat × Nat)) (a b : Nat), Chain a b l →
+    l.Pairwise (fun p q => p.2 ≤ q.1) := by
+  intro l
+  induction l with
+  | nil => intro _ _ _; exact List.Pairwise.nil
+  | cons q qs ih =>
+    intro a b h
+    obtain ⟨s, t⟩ := q
+    simp only [Chain] at h
+    refine List.Pairwise.cons ?_ (ih _ _ h.2.2)
+    intro p hp
+    have := aux_chain_mem _ _ _ h.2.2 p hp
+    simp; omega
+
+theorem aux_chain_cover : ∀ (l : List (Nat × Nat)) (a b : Nat), Chain a b l →
+    ∀ i, a ≤ i → i < b → ∃ p ∈ l, p.1 ≤ i ∧ i < p.2 := by
+  intro l
+  induction l with
+  | nil => intro a b h i h1 h2; simp [Chain] at h; omega
+  | cons q qs ih =>
+    intro a b h i h1 h2
+    obtain ⟨s, t⟩ := q
+    simp only [Chain] at h
+    by_cases hi : i < t
+    · exact ⟨(s, t), List.mem_cons_self, by simp; omega, by simpa using hi⟩
+    · obtain ⟨p, hp, hp2⟩ := ih _ _ h.2.2 i (by omega) h2
+      exact ⟨p, List.mem_cons_of_mem _ hp, hp2⟩
+
+/-! ### bookkeeping over the list of program counters -/
+
+/-- inside the critical section (between `acquire` and `release`) -/
+def inCS : Pc → Bool
+  | .locked | .readN _ | .readS _ _ | .wroteN _ _ | .relY _ _ => true
+  | _ => false
+
+/-- slice decided but not yet yielded -/
+def pend : Pc → Option (Nat × Nat)
+  | .wroteN a b | .relY a b | .yielding a b => some (a, b)
+  | _ => none
+
+theorem aux_fm_same : ∀ (pcs : List Pc) (w : Nat) (pc pc' : Pc), pcs[w]? = some pc → pend pc = pend pc' →
+    (pcs.set w pc').filterMap pend = pcs.filterMap pend := by
+  intro pcs
+  induction pcs with
+  | nil => intro w pc pc' h; simp at h
+  | cons q qs ih =>
+    intro w pc pc' h hp
+    cases w with
+    | zero =>
+      simp at h; subst h
+      simp [List.filterMap_cons, hp]
+    | succ k =>
+      simp at h
+      simp [List.filterMap_cons, ih k pc pc' h hp]
+
+theorem aux_fm_add : ∀ (pcs : List Pc) (w : Nat) (pc pc' : Pc) (x : Nat × Nat), pcs[w]? = some pc →
+    pend pc = none → pend pc' = some x →
+    List.Perm ((pcs.set w pc').filterMap pend) (x :: pcs.filterMap pend) := by
+  intro pcs
+  induction pcs with
+  | nil => intro w pc pc' x h; simp at h
+  | cons q qs ih =>
+    intro w pc pc' x h hn hs
+    cases w with
+    | zero =>
+      simp at h; subst h
+      simp [hn, hs]
+    | succ k =>
+      simp at h
+      have := ih k pc pc' x h hn hs
+      simp only [List.set_cons_succ, List.filterMap_cons]
+      cases hq : pend q with
+      | none => simpa using this
+      | some y =>
+        simp only
+        exact (List.Perm.cons y this).trans (List.Perm.swap x y _)
+
+theorem aux_fm_remove : ∀ (pcs : List Pc) (w : Nat) (pc pc' : Pc) (x : Nat × Nat), pcs[w]? = some pc →
+    pend pc = some x → pend pc' = none →
+    List.Perm (x :: (pcs.set w pc').filterMap pend) (pcs.filterMap pend) := by
+  intro pcs
+  induction pcs with
+  | nil => intro w pc pc' x h; simp at h
+  | cons q qs ih =>
+    intro w pc pc' x h hs hn
+    cases w with
+    | zero =>
+      simp at h; subst h
+      simp [hn, hs]
+    | succ k =>
+      simp at h
+      have := ih k pc pc' x h hs hn
+      simp only [List.set_cons_succ, List.filterMap_cons]
+      cases hq : pend q with
+      | none => simpa using this
+      | some y =>
+        simp only
+        exact (List.Perm.swap y x _).trans (List.Perm.cons y this)
+
+/-- has left the loop (saw `_ndata == 0`) -/
+def isFin : Pc → Bool
+  | .retg | .done => true
+  | _ => false
+
+/-- `_start` as it will be once the lock holder's pending write has happened -/
+def effStart (s : St) : Nat :=
+  match s.lock with
+  | some w =>
+    match s.pcs[w]? with
+    | some (.wroteN _ b) => b
+    | _ => s.start
+  | none => s.start
+
+def slicesOf (ys : List (Nat × Nat × Nat)) : List (Nat × Nat) := ys.map (fun e => (e.2.1, e.2.2))
+
+/-- the invariant of the protocol -/
+structure Inv (n : Nat) (s : St) : Prop where
+  holder : ∀ (w : Nat), s.lock = some w → ∃ pc, s.pcs[w]? = some pc
+  mutex  : ∀ (w : Nat) (pc : Pc), s.pcs[w]? = some pc → (inCS pc = true ↔ s.lock = some w)
+  readsN : ∀ (w nd : Nat), s.pcs[w]? = some (Pc.readN nd) → nd = s.ndata
+  readsS : ∀ (w nd st : Nat), s.pcs[w]? = some (Pc.readS nd st) → nd = s.ndata ∧ st = s.start
+  chain  : Chain 0 (if s.ndata = 0 then n else effStart s) s.log
+  total  : s.ndata ≠ 0 → effStart s + s.ndata = n
+  perm   : List.Perm (slicesOf s.yielded ++ s.pcs.filterMap pend) s.log
+  fin    : ∀ (w : Nat) (pc : Pc), s.pcs[w]? = some pc → isFin pc = true → s.ndata = 0
+
+theorem init_inv (n workers : Nat) : Inv n (init n workers) := by
+  refine ⟨?_, ?_, ?_, ?_, ?_, ?_, ?_, ?_⟩
+  · intro w h; simp [init] at h
+  · intro w pc h
+    simp only [init, List.getElem?_replicate] at h
+    split at h
+    · simp at h; subst h; simp [inCS, init]
+    · simp at h
+  · intro w nd h
+    simp only [init, List.getElem?_replicate] at h
+    split at h <;> simp at h
+  · intro w nd st h
+    simp only [init, List.getElem?_replicate] at h
+    split at h <;> simp at h
+  · simp only [init, effStart]
+    by_cases h : n = 0 <;> simp [h, Chain]
+  · intro _; simp [init, effStart]
+  · have : (List.replicate workers Pc.idle).filterMap pend = [] := by
+      induction workers with
+      | zero => rfl
+      | succ k ih => simp [List.replicate_succ, List.filterMap_cons, pend, ih]
+    simp [init, slicesOf, this]
+  · intro w pc h hf
+    simp only [init, List.getElem?_replicate] at h
+    split at h
+    · simp at h; subst h; simp [isFin] at hf
+    · simp at h
+
+theorem aux_get_set (pcs : List Pc) (w v : Nat) (pc q : Pc) (h : (pcs.set w pc)[v]? = some q) :
+    (v = w ∧ q = pc ∧ w < pcs.length) ∨ (v ≠ w ∧ pcs[v]? = some q) := by
+  by_cases hv : w = v
+  · subst hv
+    by_cases hl : w < pcs.length
+    · simp [hl] at h; left; exact ⟨rfl, h.symm, hl⟩
+    · simp [List.getElem?_set, hl] at h
+  · rw [List.getElem?_set_ne hv] at h
+    right; exact ⟨fun e => hv e.symm, h⟩
+
+def effOf (pc : Pc) (st : Nat) : Nat := match pc with | .wroteN _ b => b | _ => st
+
+theorem aux_effStart_holder (s : St) (w : Nat) (pc : Pc) (hl : s.lock = some w) (hw : s.pcs[w]? = some pc) :
+    effStart s = effOf pc s.start := by
+  simp only [effStart, hl, hw, effOf]
+  cases pc <;> rfl
+
+theorem aux_effStart_none (s : St) (hl : s.lock = none) : effStart s = s.start := by
+  simp [effStart, hl]
+
+/-- `effStart` only looks at the lock, `_start` and the holder's pc -/
+theorem aux_effStart_congr (s s' : St) (hl : s'.lock = s.lock) (hst : s'.start = s.start)
+    (hp : ∀ v, s.lock = some v → s'.pcs[v]? = s.pcs[v]?) : effStart s' = effStart s := by
+  unfold effStart
+  rw [hl, hst]
+  cases h : s.lock with
+  | none => rfl
+  | some v => simp only; rw [hp v h]
+
+theorem aux_chunk_pos (c : Cfg) (nd : Nat) (hc : 1 ≤ c.chunk) : 1 ≤ chunkOf c nd := by
+  unfold chunkOf
+  cases c.kind <;> simp <;> omega
+
+
+theorem aux_mutex_set (pcs : List Pc) (lock lock' : Option Nat) (w : Nat) (q : Pc)
+    (hM : ∀ (v : Nat) (p : Pc), pcs[v]? = some p → (inCS p = true ↔ lock = some v))
+    (hq : inCS q = true ↔ lock' = some w)
+    (ho : ∀ v, v ≠ w → (lock' = some v ↔ lock = some v)) :
+    ∀ (v : Nat) (p : Pc), (pcs.set w q)[v]? = some p → (inCS p = true ↔ lock' = some v) := by
+  intro v p hp
+  rcases aux_get_set _ _ _ _ _ hp with ⟨rfl, rfl, _⟩ | ⟨hne, hp'⟩
+  · exact hq
+  · exact (hM v p hp').trans (ho v hne).symm
+
+theorem aux_readsN_set (pcs : List Pc) (w : Nat) (q : Pc) (nd0 : Nat)
+    (hR : ∀ (v nd : Nat), v ≠ w → pcs[v]? = some (Pc.readN nd) → nd = nd0)
+    (hq : ∀ nd, q = Pc.readN nd → nd = nd0) :
+    ∀ (v nd : Nat), (pcs.set w q)[v]? = some (Pc.readN nd) → nd = nd0 := by
+  intro v nd hp
+  rcases aux_get_set _ _ _ _ _ hp with ⟨rfl, h2, _⟩ | ⟨hne, hp'⟩
+  · exact hq nd h2.symm
+  · exact hR v nd hne hp'
+
+theorem aux_readsS_set (pcs : List Pc) (w : Nat) (q : Pc) (nd0 st0 : Nat)
+    (hR : ∀ (v nd st : Nat), v ≠ w → pcs[v]? = some (Pc.readS nd st) → nd = nd0 ∧ st = st0)
+    (hq : ∀ nd st, q = Pc.readS nd st → nd = nd0 ∧ st = st0) :
+    ∀ (v nd st : Nat), (pcs.set w q)[v]? = some (Pc.readS nd st) → nd = nd0 ∧ st = st0 := by
+  intro v nd st hp
+  rcases aux_get_set _ _ _ _ _ hp with ⟨rfl, h2, _⟩ | ⟨hne, hp'⟩
+  · exact hq nd st h2.symm
+  · exact hR v nd st hne hp'
+
+theorem aux_fin_set (pcs : List Pc) (w : Nat) (q : Pc) (nd0 : Nat)
+    (hF : ∀ (v : Nat) (p : Pc), v ≠ w → pcs[v]? = some p → isFin p = true → nd0 = 0)
+    (hq : isFin q = true → nd0 = 0) :
+    ∀ (v : Nat) (p : Pc), (pcs.set w q)[v]? = some p → isFin p = true → nd0 = 0 := by
+  intro v p hp hf
+  rcases aux_get_set _ _ _ _ _ hp with ⟨rfl, rfl, _⟩ | ⟨hne, hp'⟩
+  · exact hq hf
+  · exact hF v p hne hp' hf
+
+theorem step_inv (c : Cfg) (n : Nat) (s s' : St) (w : Nat) (e : Ev) (hc : 1 ≤ c.chunk)
+    (hI : Inv n s) (hs : step c s w = some (s', e)) : Inv n s' := by
+  obtain ⟨hH, hM, hRN, hRS, hCh, hT, hP, hF⟩ := hI
+  unfold step at hs
+  cases hw : s.pcs[w]? with
+  | none => simp [hw] at hs
+  | some pc =>
+    have hlen : w < s.pcs.length := by
+      rcases Nat.lt_or_ge w s.pcs.length with h | h
+      · exact h
+      · rw [List.getElem?_eq_none h] at hw; simp at hw
+    have hself : ∀ q, (s.pcs.set w q)[w]? = some q := by intro q; simp [hlen]
+    have hMw := hM w _ hw
+    rw [hw] at hs
+    -- while `w` holds the lock nobody else is inside the critical section
+    have hexcl : s.lock = some w → ∀ (v : Nat) (p : Pc), v ≠ w → s.pcs[v]? = some p → inCS p = false := by
+      intro hl v p hv hp
+      cases hin : inCS p with
+      | false => rfl
+      | true => have := (hM v p hp).mp hin; rw [hl] at this; cases this; exact absurd rfl hv
+    have hholder : ∀ (q : Pc) (l : Option Nat), (∀ v, l = some v → s.lock = some v ∨ v = w) →
+        ∀ v, l = some v → ∃ p, (s.pcs.set w q)[v]? = some p := by
+      intro q l hl v hv
+      by_cases hvw : v = w
+      · subst hvw; exact ⟨_, hself q⟩
+      · rcases hl v hv with h | h
+        · obtain ⟨p, hp⟩ := hH v h
+          exact ⟨p, by rw [List.getElem?_set_ne (fun e => hvw e.symm)]; exact hp⟩
+        · exact absurd h hvw
+    cases pc with
+    | idle =>
+      simp only at hs
+      split at hs
+      · rename_i hl
+        simp at hs; obtain ⟨rfl, rfl⟩ := hs
+        refine ⟨?_, ?_, ?_, ?_, ?_, ?_, ?_, ?_⟩
+        · exact hholder _ _ (by intro v hv; simp at hv; right; exact hv.symm)
+        · exact aux_mutex_set _ s.lock _ _ _ hM (by simp [inCS]) (by intro v hv; simp [hl]; omega)
+        · exact aux_readsN_set _ _ _ _ (fun v nd _ h => hRN v nd h) (by intro nd h; cases h)
+        · exact aux_readsS_set _ _ _ _ _ (fun v nd st _ h => hRS v nd st h) (by intro nd st h; cases h)
+        · simp only [effStart, hself]
+          simpa [effStart, hl] using hCh
+        · simp only [effStart, hself]
+          simpa [effStart, hl] using hT
+        · simp only; rw [aux_fm_same _ _ _ _ hw (by simp [pend])]; exact hP
+        · exact aux_fin_set _ _ _ _ (fun v p _ h hf => hF v p h hf) (by simp [isFin])
+      · simp at hs
+    | locked =>
+      simp at hs; obtain ⟨rfl, rfl⟩ := hs
+      have hl : s.lock = some w := hMw.mp rfl
+      have hE : effStart { s with pcs := s.pcs.set w (Pc.readN s.ndata) } = effStart s := by
+        rw [aux_effStart_holder { s with pcs := s.pcs.set w (Pc.readN s.ndata) } w _ hl (hself _),
+          aux_effStart_holder s w _ hl hw]; rfl
+      refine ⟨?_, ?_, ?_, ?_, ?_, ?_, ?_, ?_⟩
+      · exact hholder _ _ (by intro v hv; left; exact hv)
+      · exact aux_mutex_set _ s.lock _ _ _ hM (by simp [inCS, hl]) (by intro v hv; rfl)
+      · exact aux_readsN_set _ _ _ _ (fun v nd _ h => hRN v nd h) (by intro nd h; cases h; rfl)
+      · exact aux_readsS_set _ _ _ _ _ (fun v nd st _ h => hRS v nd st h) (by intro nd st h; cases h)
+      · rw [hE]; exact hCh
+      · rw [hE]; exact hT
+      · simp only; rw [aux_fm_same _ _ _ _ hw (by simp [pend])]; exact hP
+      · exact aux_fin_set _ _ _ _ (fun v p _ h hf => hF v p h hf) (by simp [isFin])
+    | readN nd =>
+      simp at hs; obtain ⟨rfl, rfl⟩ := hs
+      have hl : s.lock = some w := hMw.mp rfl
+      have hE : effStart { s with pcs := s.pcs.set w (Pc.readS nd s.start) } = effStart s := by
+        rw [aux_effStart_holder { s with pcs := s.pcs.set w (Pc.readS nd s.start) } w _ hl (hself _),
+          aux_effStart_holder s w _ hl hw]; rfl
+      refine ⟨?_, ?_, ?_, ?_, ?_, ?_, ?_, ?_⟩
+      · exact hholder _ _ (by intro v hv; left; exact hv)
+      · exact aux_mutex_set _ s.lock _ _ _ hM (by simp [inCS, hl]) (by intro v hv; rfl)
+      · exact aux_readsN_set _ _ _ _ (fun v nd _ h => hRN v nd h) (by intro nd h; cases h)
+      · exact aux_readsS_set _ _ _ _ _ (fun v nd st _ h => hRS v nd st h)
+          (by intro nd' st h; cases h; exact ⟨hRN w _ hw, rfl⟩)
+      · rw [hE]; exact hCh
+      · rw [hE]; exact hT
+      · simp only; rw [aux_fm_same _ _ _ _ hw (by simp [pend])]; exact hP
+      · exact aux_fin_set _ _ _ _ (fun v p _ h hf => hF v p h hf) (by simp [isFin])
+    | readS nd st =>
+      have hl : s.lock = some w := hMw.mp rfl
+      obtain ⟨hnd, hst⟩ := hRS w nd st hw
+      have hEold : effStart s = st := by rw [aux_effStart_holder s w _ hl hw, hst]; rfl
+      have hnoN : ∀ (v nd' : Nat), v ≠ w → s.pcs[v]? = some (Pc.readN nd') → nd' = (0:Nat) ∧ False := by
+        intro v nd' hv hp; have := hexcl hl v _ hv hp; simp [inCS] at this
+      have hnoS : ∀ (v nd' st' : Nat), v ≠ w → s.pcs[v]? = some (Pc.readS nd' st') → False := by
+        intro v nd' st' hv hp; have := hexcl hl v _ hv hp; simp [inCS] at this
+      simp only at hs
+      split at hs
+      · rename_i hnz
+        have hpos := aux_chunk_pos c nd hc
+        split at hs
+        · rename_i hgt
+          simp at hs; obtain ⟨rfl, rfl⟩ := hs
+          refine ⟨?_, ?_, ?_, ?_, ?_, ?_, ?_, ?_⟩
+          · exact hholder _ _ (by intro v hv; left; exact hv)
+          · exact aux_mutex_set _ s.lock _ _ _ hM (by simp [inCS, hl]) (by intro v hv; rfl)
+          · exact aux_readsN_set _ _ _ _ (fun v nd' hv h => ((hnoN v nd' hv h).2).elim) (by intro nd h; cases h)
+          · exact aux_readsS_set _ _ _ _ _ (fun v nd' st' hv h => (hnoS v nd' st' hv h).elim) (by intro nd st h; cases h)
+          · simp only [if_true]
+            have h1 : Chain 0 st s.log := by
+              have := hCh; rw [if_neg (by omega), hEold] at this; exact this
+            have h2 : st + nd = n := by have := hT (by omega); rw [hEold] at this; omega
+            rw [← h2]; exact aux_chain_append _ _ _ _ h1 (by omega)
+          · intro h; exact absurd rfl h
+          · simp only
+            have := aux_fm_add s.pcs w _ (Pc.relY st (st + nd)) (st, st + nd) hw (by simp [pend]) (by simp [pend])
+            exact ((List.Perm.append_left _ this).trans List.perm_middle).trans
+              ((List.Perm.cons _ hP).trans (List.perm_append_singleton _ _).symm)
+          · intro v p _ _; rfl
+        · rename_i hle
+          simp at hs; obtain ⟨rfl, rfl⟩ := hs
+          have hEnew : effStart { s with ndata := nd - chunkOf c nd, pcs := s.pcs.set w (Pc.wroteN st (st + chunkOf c nd)), log := s.log ++ [(st, st + chunkOf c nd)] } = st + chunkOf c nd := by
+            rw [aux_effStart_holder { s with ndata := nd - chunkOf c nd, pcs := s.pcs.set w (Pc.wroteN st (st + chunkOf c nd)), log := s.log ++ [(st, st + chunkOf c nd)] } w _ hl (hself _)]; rfl
+          have h1 : Chain 0 st s.log := by
+            have := hCh; rw [if_neg (by omega), hEold] at this; exact this
+          have h2 : st + nd = n := by have := hT (by omega); rw [hEold] at this; omega
+          refine ⟨?_, ?_, ?_, ?_, ?_, ?_, ?_, ?_⟩
+          · exact hholder _ _ (by intro v hv; left; exact hv)
+          · exact aux_mutex_set _ s.lock _ _ _ hM (by simp [inCS, hl]) (by intro v hv; rfl)
+          · exact aux_readsN_set _ _ _ _ (fun v nd' hv h => ((hnoN v nd' hv h).2).elim) (by intro nd h; cases h)
+          · exact aux_readsS_set _ _ _ _ _ (fun v nd' st' hv h => (hnoS v nd' st' hv h).elim) (by intro nd st h; cases h)
+          · rw [hEnew]
+            simp only
+            have h3 := aux_chain_append _ _ _ _ h1 (show st < st + chunkOf c nd by omega)
+            by_cases hz : nd - chunkOf c nd = 0
+            · rw [if_pos hz]
+              have : st + chunkOf c nd = n := by omega
+              rw [← this]; exact h3
+            · rw [if_neg hz]; exact h3
+          · intro hz; rw [hEnew]; simp only at hz ⊢; omega
+          · simp only
+            have := aux_fm_add s.pcs w _ (Pc.wroteN st (st + chunkOf c nd)) (st, st + chunkOf c nd) hw
+              (by simp [pend]) (by simp [pend])
+            exact ((List.Perm.append_left _ this).trans List.perm_middle).trans
+              ((List.Perm.cons _ hP).trans (List.perm_append_singleton _ _).symm)
+          · exact aux_fin_set _ _ _ _ (fun v p _ h hf => by have := hF v p h hf; omega) (by simp [isFin])
+      · rename_i hz
+        have hz : nd = 0 := by omega
+        simp at hs; obtain ⟨rfl, rfl⟩ := hs
+        refine ⟨?_, ?_, ?_, ?_, ?_, ?_, ?_, ?_⟩
+        · intro v hv; simp at hv
+        · exact aux_mutex_set _ s.lock _ _ _ hM (by simp [inCS])
+            (by intro v hv; simp [hl]; omega)
+        · exact aux_readsN_set _ _ _ _ (fun v nd _ h => hRN v nd h) (by intro nd h; cases h)
+        · exact aux_readsS_set _ _ _ _ _ (fun v nd st _ h => hRS v nd st h) (by intro nd st h; cases h)
+        · simp only; rw [if_pos (by omega)]
+          have := hCh; rw [if_pos (by omega)] at this; exact this
+        · intro h; simp only at h; omega
+        · simp only; rw [aux_fm_same _ _ _ _ hw (by simp [pend])]; exact hP
+        · exact aux_fin_set _ _ _ _ (fun v p _ h hf => hF v p h hf) (by intro _; show s.ndata = 0; omega)
+    | wroteN a b =>
+      simp at hs; obtain ⟨rfl, rfl⟩ := hs
+      have hl : s.lock = some w := hMw.mp rfl
+      have hE : effStart { s with start := b, pcs := s.pcs.set w (Pc.relY a b) } = effStart s := by
+        rw [aux_effStart_holder { s with start := b, pcs := s.pcs.set w (Pc.relY a b) } w _ hl (hself _),
+          aux_effStart_holder s w _ hl hw]; rfl
+      refine ⟨?_, ?_, ?_, ?_, ?_, ?_, ?_, ?_⟩
+      · exact hholder _ _ (by intro v hv; left; exact hv)
+      · exact aux_mutex_set _ s.lock _ _ _ hM (by simp [inCS, hl]) (by intro v hv; rfl)
+      · exact aux_readsN_set _ _ _ _ (fun v nd _ h => hRN v nd h) (by intro nd h; cases h)
+      · exact aux_readsS_set _ _ _ _ _
+          (fun v nd st hv h => by have := hexcl hl v _ hv h; simp [inCS] at this)
+          (by intro nd st h; cases h)
+      · rw [hE]; exact hCh
+      · rw [hE]; exact hT
+      · simp only; rw [aux_fm_same _ _ _ _ hw (by simp [pend])]; exact hP
+      · exact aux_fin_set _ _ _ _ (fun v p _ h hf => hF v p h hf) (by simp [isFin])
+    | relY a b =>
+      simp at hs; obtain ⟨rfl, rfl⟩ := hs
+      have hl : s.lock = some w := hMw.mp rfl
+      have hE : effStart { s with lock := none, pcs := s.pcs.set w (Pc.yielding a b) } = effStart s := by
+        rw [aux_effStart_none _ rfl, aux_effStart_holder s w _ hl hw]; rfl
+      refine ⟨?_, ?_, ?_, ?_, ?_, ?_, ?_, ?_⟩
+      · intro v hv; simp at hv
+      · exact aux_mutex_set _ s.lock _ _ _ hM (by simp [inCS]) (by intro v hv; simp [hl]; omega)
+      · exact aux_readsN_set _ _ _ _ (fun v nd _ h => hRN v nd h) (by intro nd h; cases h)
+      · exact aux_readsS_set _ _ _ _ _ (fun v nd st _ h => hRS v nd st h) (by intro nd st h; cases h)
+      · rw [hE]; exact hCh
+      · rw [hE]; exact hT
+      · simp only; rw [aux_fm_same _ _ _ _ hw (by simp [pend])]; exact hP
+      · exact aux_fin_set _ _ _ _ (fun v p _ h hf => hF v p h hf) (by simp [isFin])
+    | yielding a b =>
+      simp at hs; obtain ⟨rfl, rfl⟩ := hs
+      have hnl : s.lock ≠ some w := by intro h; have := hMw.mpr h; simp [inCS] at this
+      have hE : effStart { s with yielded := s.yielded ++ [(w, a, b)], pcs := s.pcs.set w Pc.idle } = effStart s :=
+        aux_effStart_congr s _ rfl rfl (by
+          intro v hv; exact List.getElem?_set_ne (by intro e; subst e; exact hnl hv))
+      refine ⟨?_, ?_, ?_, ?_, ?_, ?_, ?_, ?_⟩
+      · exact hholder _ _ (by intro v hv; left; exact hv)
+      · exact aux_mutex_set _ s.lock _ _ _ hM (by simp [inCS]; exact hnl) (by intro v hv; rfl)
+      · exact aux_readsN_set _ _ _ _ (fun v nd _ h => hRN v nd h) (by intro nd h; cases h)
+      · exact aux_readsS_set _ _ _ _ _ (fun v nd st _ h => hRS v nd st h) (by intro nd st h; cases h)
+      · rw [hE]; exact hCh
+      · rw [hE]; exact hT
+      · simp only [slicesOf, List.map_append, List.map_cons, List.map_nil, List.append_assoc, List.singleton_append]
+        have := aux_fm_remove s.pcs w _ Pc.idle (a, b) hw (by simp [pend]) (by simp [pend])
+        exact (List.Perm.append_left _ this).trans hP
+      · exact aux_fin_set _ _ _ _ (fun v p _ h hf => hF v p h hf) (by simp [isFin])
+    | retg =>
+      simp at hs; obtain ⟨rfl, rfl⟩ := hs
+      have hnl : s.lock ≠ some w := by intro h; have := hMw.mpr h; simp [inCS] at this
+      have hE : effStart { s with pcs := s.pcs.set w Pc.done } = effStart s :=
+        aux_effStart_congr s _ rfl rfl (by
+          intro v hv; exact List.getElem?_set_ne (by intro e; subst e; exact hnl hv))
+      refine ⟨?_, ?_, ?_, ?_, ?_, ?_, ?_, ?_⟩
+      · exact hholder _ _ (by intro v hv; left; exact hv)
+      · exact aux_mutex_set _ s.lock _ _ _ hM (by simp [inCS]; exact hnl) (by intro v hv; rfl)
+      · exact aux_readsN_set _ _ _ _ (fun v nd _ h => hRN v nd h) (by intro nd h; cases h)
+      · exact aux_readsS_set _ _ _ _ _ (fun v nd st _ h => hRS v nd st h) (by intro nd st h; cases h)
+      · rw [hE]; exact hCh
+      · rw [hE]; exact hT
+      · simp only; rw [aux_fm_same _ _ _ _ hw (by simp [pend])]; exact hP
+      · exact aux_fin_set _ _ _ _ (fun v p _ h hf => hF v p h hf) (by intro _; exact hF w _ hw rfl)
+    | done => simp at hs
+
+
+theorem run_inv (c : Cfg) (n : Nat) (hc : 1 ≤ c.chunk) :
+    ∀ (sched : List Nat) (s : St), Inv n s → Inv n (run c s sched) := by
+  intro sched
+  induction sched with
+  | nil => intro s h; exact h
+  | cons w ws ih =>
+    intro s h
+    unfold run
+    cases hs : step c s w with
+    | none => exact ih s h
+    | some p => obtain ⟨s', e⟩ := p; exact ih s' (step_inv c n s s' w e hc h hs)
+
+/-- **safety**: the invariant holds in every state reachable under any schedule -/
+theorem safety (c : Cfg) (n workers : Nat) (hc : 1 ≤ c.chunk) (sched : List Nat) :
+    Inv n (run c (init n workers) sched) :=
+  run_inv c n hc sched _ (init_inv n workers)
+
+theorem aux_end_le {n : Nat} {s : St} (hI : Inv n s) : (if s.ndata = 0 then n else effStart s) ≤ n := by
+  by_cases h : s.ndata = 0
+  · simp [h]
+  · have := hI.total h; simp [h]; omega
+
+theorem aux_yielded_mem_log {n : Nat} {s : St} (hI : Inv n s) (p : Nat × Nat) (hp : p ∈ slicesOf s.yielded) :
+    p ∈ s.log := hI.perm.subset (List.mem_append_left _ hp)
+
+/-- every slice handed out is non-empty and lies inside `[0, n)` -/
+theorem inv_yielded_in_range {n : Nat} {s : St} (hI : Inv n s) :
+    ∀ e ∈ s.yielded, e.2.1 < e.2.2 ∧ e.2.2 ≤ n := by
+  intro e he
+  have hm : (e.2.1, e.2.2) ∈ slicesOf s.yielded := List.mem_map.mpr ⟨e, he, rfl⟩
+  have := aux_chain_mem _ _ _ hI.chain _ (aux_yielded_mem_log hI _ hm)
+  have hle := aux_end_le hI
+  simp at this; omega
+
+/-- the slices handed out so far are pairwise disjoint -/
+theorem inv_yielded_disjoint {n : Nat} {s : St} (hI : Inv n s) :
+    (slicesOf s.yielded).Pairwise (fun p q => p.2 ≤ q.1 ∨ q.2 ≤ p.1) := by
+  have h1 : s.log.Pairwise (fun p q => p.2 ≤ q.1 ∨ q.2 ≤ p.1) :=
+    (aux_chain_pairwise _ _ _ hI.chain).imp (fun h => Or.inl h)
+  have h2 := (hI.perm.pairwise_iff (fun {a b} (h : a.2 ≤ b.1 ∨ b.2 ≤ a.1) => h.symm)).mpr h1
+  exact (List.pairwise_append.mp h2).1
+
+/-- when every worker has returned, the slices handed out are exactly a partition of `[0, n)` -/
+theorem inv_cover_at_end {n : Nat} {s : St} (hI : Inv n s) (hne : s.pcs ≠ [])
+    (hdone : ∀ pc ∈ s.pcs, pc = Pc.done) :
+    List.Perm (slicesOf s.yielded) s.log ∧ Chain 0 n s.log ∧
+    ∀ i, i < n → ∃ e ∈ s.yielded, e.2.1 ≤ i ∧ i < e.2.2 := by
+  have hnd : s.ndata = 0 := by
+    cases hp : s.pcs with
+    | nil => exact absurd hp hne
+    | cons q qs =>
+      have hq : s.pcs[0]? = some q := by simp [hp]
+      have : q = Pc.done := hdone q (by simp [hp])
+      exact hI.fin 0 q hq (by simp [this, isFin])
+  have hfm : s.pcs.filterMap pend = [] := by
+    apply List.filterMap_eq_nil_iff.mpr
+    intro a ha; rw [hdone a ha]; rfl
+  have hperm : List.Perm (slicesOf s.yielded) s.log := by
+    have := hI.perm; rw [hfm, List.append_nil] at this; exact this
+  have hch : Chain 0 n s.log := by have := hI.chain; rw [if_pos hnd] at this; exact this
+  refine ⟨hperm, hch, ?_⟩
+  intro i hi
+  obtain ⟨p, hp, hp2⟩ := aux_chain_cover _ _ _ hch i (Nat.zero_le _) hi
+  have : p ∈ slicesOf s.yielded := hperm.symm.subset hp
+  obtain ⟨e, he, rfl⟩ := List.mem_map.mp this
+  exact ⟨e, he, hp2⟩
+
+
+
+/-- no deadlock: unless every worker has returned, some worker can move -/
+theorem inv_no_deadlock (c : Cfg) {n : Nat} {s : St} (hI : Inv n s)
+    (hnd : ∃ pc ∈ s.pcs, pc ≠ Pc.done) : ∃ w, (step c s w).isSome = true := by
+  cases hl : s.lock with
+  | some w =>
+    obtain ⟨pc, hpc⟩ := hI.holder w hl
+    have hcs := (hI.mutex w pc hpc).mpr hl
+    refine ⟨w, ?_⟩
+    unfold step
+    rw [hpc]
+    cases pc <;> simp [inCS] at hcs ⊢
+    all_goals (repeat' split) <;> simp
+  | none =>
+    obtain ⟨pc, hmem, hne⟩ := hnd
+    obtain ⟨w, hw, hget⟩ := List.getElem_of_mem hmem
+    have hpc : s.pcs[w]? = some pc := by rw [List.getElem?_eq_getElem hw, hget]
+    have hcs : inCS pc = false := by
+      cases h : inCS pc with
+      | false => rfl
+      | true => have := (hI.mutex w pc hpc).mp h; rw [hl] at this; cases this
+    refine ⟨w, ?_⟩
+    unfold step
+    rw [hpc]
+    cases pc <;> simp [inCS] at hcs hne ⊢
+    · exact hl
+
+
+
+def rank : Pc → Nat
+  | .done => 0 | .retg => 1 | .readS _ _ => 2 | .readN _ => 3 | .locked => 4 | .idle => 5
+  | .yielding _ _ => 6 | .relY _ _ => 7 | .wroteN _ _ => 8
+
+/-- termination measure: every event strictly decreases it -/
+def measure (s : St) : Nat := 10 * s.ndata + (s.pcs.map rank).sum
+
+theorem aux_sum_set : ∀ (pcs : List Pc) (w : Nat) (pc q : Pc), pcs[w]? = some pc →
+    ((pcs.set w q).map rank).sum + rank pc = (pcs.map rank).sum + rank q := by
+  intro pcs
+  induction pcs with
+  | nil => intro w pc q h; simp at h
+  | cons p ps ih =>
+    intro w pc q h
+    cases w with
+    | zero => simp at h; subst h; simp; omega
+    | succ k =>
+      simp at h
+      have := ih k pc q h
+      simp only [List.set_cons_succ, List.map_cons, List.sum_cons]
+      omega
+
+theorem step_measure (c : Cfg) (n : Nat) (s s' : St) (w : Nat) (e : Ev) (hc : 1 ≤ c.chunk)
+    (hI : Inv n s) (hs : step c s w = some (s', e)) : measure s' < measure s := by
+  unfold step at hs
+  cases hw : s.pcs[w]? with
+  | none => simp [hw] at hs
+  | some pc =>
+    rw [hw] at hs
+    have hsum := fun q => aux_sum_set s.pcs w pc q hw
+    cases pc with
+    | idle =>
+      simp only at hs
+      split at hs
+      · simp at hs; obtain ⟨rfl, rfl⟩ := hs
+        have := hsum Pc.locked; simp [measure, rank] at this ⊢; omega
+      · simp at hs
+    | locked =>
+      simp at hs; obtain ⟨rfl, rfl⟩ := hs
+      have := hsum (Pc.readN s.ndata); simp [measure, rank] at this ⊢; omega
+    | readN nd =>
+      simp at hs; obtain ⟨rfl, rfl⟩ := hs
+      have := hsum (Pc.readS nd s.start); simp [measure, rank] at this ⊢; omega
+    | readS nd st =>
+      obtain ⟨hnd, _⟩ := hI.readsS w nd st hw
+      have hpos := aux_chunk_pos c nd hc
+      simp only at hs
+      split at hs
+      · split at hs
+        · simp at hs; obtain ⟨rfl, rfl⟩ := hs
+          have := hsum (Pc.relY st (st + nd)); simp [measure, rank] at this ⊢; omega
+        · simp at hs; obtain ⟨rfl, rfl⟩ := hs
+          have := hsum (Pc.wroteN st (st + chunkOf c nd)); simp [measure, rank] at this ⊢; omega
+      · simp at hs; obtain ⟨rfl, rfl⟩ := hs
+        have := hsum Pc.retg; simp [measure, rank] at this ⊢; omega
+    | wroteN a b =>
+      simp at hs; obtain ⟨rfl, rfl⟩ := hs
+      have := hsum (Pc.relY a b); simp [measure, rank] at this ⊢; omega
+    | relY a b =>
+      simp at hs; obtain ⟨rfl, rfl⟩ := hs
+      have := hsum (Pc.yielding a b); simp [measure, rank] at this ⊢; omega
+    | yielding a b =>
+      simp at hs; obtain ⟨rfl, rfl⟩ := hs
+      have := hsum Pc.idle; simp [measure, rank] at this ⊢; omega
+    | retg =>
+      simp at hs; obtain ⟨rfl, rfl⟩ := hs
+      have := hsum Pc.done; simp [measure, rank] at this ⊢; omega
+    | done => simp at hs
+
+/-- number of events that actually happen along a schedule -/
+def enabledCount (c : Cfg) (s : St) : List Nat → Nat
+  | [] => 0
+  | w :: ws =>
+    match step c s w with
+    | none => enabledCount c s ws
+    | some (s', _) => enabledCount c s' ws + 1
+
+theorem aux_count_le (c : Cfg) (n : Nat) (hc : 1 ≤ c.chunk) :
+    ∀ (sched : List Nat) (s : St), Inv n s → enabledCount c s sched ≤ measure s := by
+  intro sched
+  induction sched with
+  | nil => intro s _; simp [enabledCount]
+  | cons w ws ih =>
+    intro s h
+    unfold enabledCount
+    cases hs : step c s w with
+    | none => exact ih s h
+    | some p =>
+      obtain ⟨s', e⟩ := p
+      have h1 := ih s' (step_inv c n s s' w e hc h hs)
+      have h2 := step_measure c n s s' w e hc h hs
+      simp only; omega
+
+theorem aux_measure_init (n workers : Nat) : measure (init n workers) = 10 * n + 5 * workers := by
+  have : ((List.replicate workers Pc.idle).map rank).sum = 5 * workers := by
+    induction workers with
+    | zero => rfl
+    | succ k ih => simp only [List.replicate_succ, List.map_cons, List.sum_cons, ih, rank]; omega
+  simp only [measure, init, this]
+
+/-- **bounded progress**: under any schedule at most `10 n + 5 W` events ever happen, so every
+worker's iteration terminates (together with `inv_no_deadlock`: every maximal execution ends
+with all workers returned). -/
+theorem steps_bounded (c : Cfg) (n workers : Nat) (hc : 1 ≤ c.chunk) (sched : List Nat) :
+    enabledCount c (init n workers) sched ≤ 10 * n + 5 * workers := by
+  have := aux_count_le c n hc sched _ (init_inv n workers)
+  rw [aux_measure_init] at this; exact this
+
+/-- `Scheduler.__init__` always stores a chunk ≥ 1 -/
+theorem initChunk_pos (k : Kind) (ndata nprocs : Nat) (ca : Int) : 1 ≤ initChunk k ndata nprocs ca := by
+  unfold initChunk
+  cases k <;> simp <;> omega
+
+
+
+theorem aux_writeAt_length {β} (res : List β) (a : Nat) (vals : List β) (h : a + vals.length ≤ res.length) :
+    (writeAt res a vals).length = res.length := by
+  simp [writeAt]; omega
+
+theorem aux_writeAt_get {β} (res : List β) (a : Nat) (vals : List β) (i : Nat)
+    (h : a + vals.length ≤ res.length) :
+    (writeAt res a vals)[i]? = if a ≤ i ∧ i < a + vals.length then vals[i - a]? else res[i]? := by
+  unfold writeAt
+  have hlt : (res.take a).length = a := by simp; omega
+  by_cases h1 : i < a
+  · rw [List.append_assoc, List.getElem?_append_left (by omega)]
+    simp [h1]; omega
+  · rw [List.append_assoc, List.getElem?_append_right (by omega), hlt]
+    by_cases h2 : i < a + vals.length
+    · rw [List.getElem?_append_left (by omega)]
+      simp [h2]; omega
+    · rw [List.getElem?_append_right (by omega)]
+      simp [List.getElem?_drop, h2]
+      congr 1; omega
+
+theorem aux_vals_get {α β} (f : α → β) (x : List α) (a b i : Nat) (_hb : b ≤ x.length) (h1 : a ≤ i) (h2 : i < b) :
+    (((x.drop a).take (b - a)).map f)[i - a]? = (x.map f)[i]? := by
+  simp [List.getElem?_map, List.getElem?_take, List.getElem?_drop]
+  have : i - a < b - a := by omega
+  simp [this]
+  congr 2; omega
+
+theorem aux_assemble {α β} (f : α → β) (x : List α) (n : Nat) (hx : x.length = n) :
+    ∀ (slices : List (Nat × Nat)) (res : List β) (good : Nat → Prop), res.length = n →
+      (∀ p ∈ slices, p.1 ≤ p.2 ∧ p.2 ≤ n) → (∀ i, good i → res[i]? = (x.map f)[i]?) →
+      (assemble f x slices res).length = n ∧
+      ∀ i, (good i ∨ ∃ p ∈ slices, p.1 ≤ i ∧ i < p.2) → (assemble f x slices res)[i]? = (x.map f)[i]? := by
+  intro slices
+  induction slices with
+  | nil =>
+    intro res good hr _ hg
+    refine ⟨hr, ?_⟩
+    intro i hi
+    rcases hi with hi | ⟨p, hp, _⟩
+    · exact hg i hi
+    · simp at hp
+  | cons p ps ih =>
+    intro res good hr hs hg
+    have hp := hs p List.mem_cons_self
+    have hvl : (((x.drop p.1).take (p.2 - p.1)).map f).length = p.2 - p.1 := by
+      simp; omega
+    have hfit : p.1 + (((x.drop p.1).take (p.2 - p.1)).map f).length ≤ res.length := by rw [hvl]; omega
+    have := ih (writeAt res p.1 (((x.drop p.1).take (p.2 - p.1)).map f))
+      (fun i => good i ∨ (p.1 ≤ i ∧ i < p.2))
+      (by rw [aux_writeAt_length _ _ _ hfit]; exact hr)
+      (fun q hq => hs q (List.mem_cons_of_mem _ hq))
+      (by
+        intro i hi
+        rw [aux_writeAt_get _ _ _ _ hfit, hvl]
+        by_cases hin : p.1 ≤ i ∧ i < p.1 + (p.2 - p.1)
+        · rw [if_pos hin]; exact aux_vals_get f x p.1 p.2 i (by omega) hin.1 (by omega)
+        · rw [if_neg hin]
+          rcases hi with hi | hi
+          · exact hg i hi
+          · exact absurd ⟨hi.1, by omega⟩ hin)
+    refine ⟨this.1, ?_⟩
+    intro i hi
+    apply this.2
+    rcases hi with hi | ⟨q, hq, hq2⟩
+    · exact Or.inl (Or.inl hi)
+    · rcases List.mem_cons.mp hq with rfl | hq
+      · exact Or.inl (Or.inr hq2)
+      · exact Or.inr ⟨q, hq, hq2⟩
+
+/-- **result assembly**: if the slices handed out (in any order) are a permutation of a partition
+of `[0, n)`, then writing `f(x[s])` into `res[s]` for each of them yields `map f x`, whatever the
+previous content of `res`. -/
+theorem mp_assemble {α β} (f : α → β) (x : List α) (res : List β) (slices log : List (Nat × Nat))
+    (hr : res.length = x.length) (hperm : List.Perm slices log) (hch : Chain 0 x.length log) :
+    assemble f x slices res = x.map f := by
+  have hs : ∀ p ∈ slices, p.1 ≤ p.2 ∧ p.2 ≤ x.length := by
+    intro p hp
+    have := aux_chain_mem _ _ _ hch p (hperm.subset hp)
+    omega
+  obtain ⟨hl, hget⟩ := aux_assemble f x x.length rfl slices res (fun _ => False) hr hs (by intro i h; exact h.elim)
+  apply List.ext_getElem?
+  intro i
+  by_cases hi : i < x.length
+  · obtain ⟨p, hp, hp2⟩ := aux_chain_cover _ _ _ hch i (Nat.zero_le _) hi
+    exact hget i (Or.inr ⟨p, hperm.symm.subset hp, hp2⟩)
+  · rw [List.getElem?_eq_none (by omega), List.getElem?_eq_none (by simp; omega)]
+
+/-- **C15, summary**: for every `n`, worker count `W ≥ 1`, chunk ≥ 1, schedule kind and every
+interleaving: once all workers have returned, the slices they were handed are non-empty, inside
+`[0, n)`, pairwise disjoint, cover `[0, n)`, and assembling per-slice results gives the
+single-process result. -/
+theorem scheduler_exact_cover {α β} (c : Cfg) (n workers : Nat) (hc : 1 ≤ c.chunk) (hW : 0 < workers)
+    (sched : List Nat) (hdone : ∀ pc ∈ (run c (init n workers) sched).pcs, pc = Pc.done)
+    (f : α → β) (x : List α) (hx : x.length = n) (res : List β) (hr : res.length = n) :
+    let s := run c (init n workers) sched
+    (∀ e ∈ s.yielded, e.2.1 < e.2.2 ∧ e.2.2 ≤ n) ∧
+    (slicesOf s.yielded).Pairwise (fun p q => p.2 ≤ q.1 ∨ q.2 ≤ p.1) ∧
+    (∀ i, i < n → ∃ e ∈ s.yielded, e.2.1 ≤ i ∧ i < e.2.2) ∧
+    assemble f x (slicesOf s.yielded) res = x.map f := by
+  intro s
+  have hI : Inv n s := safety c n workers hc sched
+  have hlen : ∀ (sched : List Nat) (s0 : St), (run c s0 sched).pcs.length = s0.pcs.length := by
+    intro sched
+    induction sched with
+    | nil => intro s0; rfl
+    | cons w ws ih =>
+      intro s0
+      unfold run
+      cases hs : step c s0 w with
+      | none => exact ih s0
+      | some p =>
+        obtain ⟨s1, e⟩ := p
+        simp only
+        rw [ih s1]
+        unfold step at hs
+        cases hw : s0.pcs[w]? with
+        | none => simp [hw] at hs
+        | some pc =>
+          rw [hw] at hs
+          cases pc <;> simp only at hs <;> (repeat' split at hs) <;> simp at hs <;>
+            (obtain ⟨rfl, _⟩ := hs; simp)
+  have hne : s.pcs ≠ [] := by
+    intro h
+    have := hlen sched (init n workers)
+    rw [show (run c (init n workers) sched) = s from rfl, h] at this
+    simp [init] at this; omega
+  obtain ⟨hperm, hch, hcov⟩ := inv_cover_at_end hI hne hdone
+  refine ⟨inv_yielded_in_range hI, inv_yielded_disjoint hI, hcov, ?_⟩
+  subst hx
+  exact mp_assemble f x res _ _ hr hperm hch
+
+
+/-! ### non-vacuity: a concrete interleaving of two workers that runs to completion -/
+
+def demoSched : List Nat := (List.range 90).map (· % 2)
+
+example : ∀ pc ∈ (run ⟨.dynamic, 2, 2⟩ (init 5 2) demoSched).pcs, pc = Pc.done := by decide
+
+example : slicesOf (run ⟨.dynamic, 2, 2⟩ (init 5 2) demoSched).yielded = [(0, 2), (2, 4), (4, 5)] := by decide
+
+example : 1 ≤ (⟨.dynamic, 2, 2⟩ : Cfg).chunk := by decide
 
 end PyresampleModel.C15
